@@ -87,7 +87,7 @@ func propSpecs() map[string]*PropSpec {
 				{Name: "H06w", Quick: P{"L": 2}, Thorough: P{"L": 3}, Reach: []string{"compared"}},
 				{Name: "H06c", Quick: P{"allowmask": 12, "requiremask": 4, "excludemask": 16, "strings": 3, "reqsets": 8, "L": 2}, Thorough: P{"allowmask": 14, "requiremask": 12, "excludemask": 20, "strings": 5, "reqsets": 8, "L": 3}, Reach: []string{"computed", "primed"}},
 				{Name: "H02", Label: "entropy-field", Quick: P{"allowmask": 4, "requiremask": 4, "excludemask": 16, "strings": 2, "reqsets": 6, "L": 2, "T": 2}, Thorough: P{"allowmask": 12, "requiremask": 4, "excludemask": 16, "strings": 3, "reqsets": 8, "L": 2, "T": 2}, Reach: []string{"accepted"}},
-				{Name: "H04", Label: "entropy-field", Quick: P{"L": 2, "lists": 10}, Thorough: P{"L": 3, "lists": 10}, Reach: []string{"structure"}},
+				{Name: "H04", Label: "entropy-field", Quick: P{"L": 2, "lists": 7, "seps": 5}, Thorough: P{"L": 3, "lists": 10}, Reach: []string{"structure"}},
 			},
 			Bounds: map[string]string{
 				"H06w":    "nine word lists (1..7 words; with a word that does not change under title-casing, a pre-capitalised word, leading punctuation, multi-part words), Length 1..L (quick 2, thorough 3), all schemes, separator none / '-' / SFDigits1; two symbolic runs of Generate per recipe: equal token sequences must come from equal word and separator draws (and equal capitalisation draws when every word is capitalisable); Entropy() against log2 of the number of distinguishable draw vectors read off the draw log",
@@ -120,7 +120,7 @@ func propSpecs() map[string]*PropSpec {
 				{Name: "H13n", Reach: []string{"refused"}},
 				{Name: "H13b", Quick: P{"a": 1, "k": 2, "m": 2, "L": 2, "flags": 1}, Thorough: P{"a": 2, "k": 2, "m": 2, "L": 3, "flags": 1}, Reach: []string{"computed", "comfortably-acceptable", "clearly-unacceptable"}},
 				{Name: "H13b", Label: "class-flags", Quick: P{"a": 0, "k": 2, "m": 1, "L": 2, "flags": 3}, Thorough: P{"a": 1, "k": 2, "m": 1, "L": 3, "flags": 4}, Reach: []string{"computed", "comfortably-acceptable", "clearly-unacceptable"}},
-				{Name: "H13b", Label: "after-sibling-call", Quick: P{"a": 1, "k": 2, "m": 2, "L": 2, "flags": 1, "primes": 5}, Thorough: P{"a": 1, "k": 2, "m": 2, "L": 3, "flags": 1, "primes": 5}, Reach: []string{"computed", "primed"}},
+				{Name: "H13b", Label: "after-sibling-call", Quick: P{"a": 0, "k": 2, "m": 2, "L": 2, "flags": 1, "primes": 5}, Thorough: P{"a": 1, "k": 2, "m": 2, "L": 3, "flags": 1, "primes": 5}, Reach: []string{"computed", "primed"}},
 				{Name: "H02", Label: "retry-budget", Quick: P{"allowmask": 4, "requiremask": 4, "excludemask": 16, "strings": 2, "reqsets": 6, "L": 2, "T": 3}, Thorough: P{"allowmask": 12, "requiremask": 12, "excludemask": 16, "strings": 3, "reqsets": 8, "L": 2, "T": 4}, Reach: []string{"exhausted", "accepted-after-retry"}},
 			},
 			Bounds: map[string]string{
